@@ -22,8 +22,10 @@ func init() {
 		Explanation: "Decided (necessary conditions, for every offset/size/limit): (R14.1) width discipline – no index arithmetic on the memory buffer in fewer than 64 bits after the 64-bit bounds check, no narrowing of len(Buffer) to 32 bits except through the page shift, " +
 			"the compiler reads the 64-bit length slot with a 64-bit load; (R14.2) Grow takes the shared-memory lock before it reads the size, rejects with an overflow-safe comparison against Max, notifies the owner engine on every successful path, and all engines map failure to 0xffffffff; " +
 			"(R14.3) the memory sizer's min/max do not depend on the capacity-from-max flag (non-interference over all syntactic paths) and decoded memories are validated against the limit; (R14.4) every host accessor that touches the buffer is dominated by the bounds check with exactly the access width; " +
-			"(R14.5) after every call the compiler re-reads memory base and length whenever the module has a non-shared memory (exhaustive evaluation of the guard over all flag assignments). NOT decided: contents after growth, allocator behaviour, the emitted machine code.",
+			"(R14.5) after every call the compiler re-reads memory base and length whenever the module has a non-shared memory (exhaustive evaluation of the guard over all flag assignments). (R14.6) a host accessor reports success only after its size check (no `return true` ahead of the guard); (R14.7) the Go side of memory.grow acts on the memory of the instance that executes the instruction, not on the entry instance's. NOT decided: contents after growth, allocator behaviour, the emitted machine code.",
 		Rules: []core.Rule{
+			{ID: "R14.6", Template: "T-MUSTPASS", Text: "a host accessor reports success only after the size check", Min: 8},
+			{ID: "R14.7", Template: "T-SIBLING", Text: "the Go side of memory.grow (and the other instance-relative builtins) acts on the instance executing the instruction (same analysis as C04 R04.8)", Min: 1},
 			{ID: "R14.1", Template: "T-WIDTH", Text: "64-bit width discipline on buffer indices, buffer length and the compiled length slot", Min: 6},
 			{ID: "R14.2", Template: "T-CONSULT", Text: "Grow: lock before reading the size; overflow-safe Max comparison; owner engine notified; failure maps to 0xffffffff at every call site", Min: 5},
 			{ID: "R14.3", Template: "T-NONINTERF", Text: "memory sizer: min and max independent of the capacity flag; decodeMemory validates against the limit", Min: 2},
@@ -32,6 +34,8 @@ func init() {
 		},
 		Run: runC14,
 		Controls: []core.Control{
+			{Name: "write-empty-succeeds-anywhere", File: "internal/wasm/memory.go", Old: "func (m *MemoryInstance) Write(offset uint32, val []byte) bool {\n", New: "func (m *MemoryInstance) Write(offset uint32, val []byte) bool {\n\tif len(val) == 0 {\n\t\treturn true\n\t}\n", Rule: "R14.6", Substr: "Write "},
+			{Name: "grow-acts-on-entry-module", File: "internal/engine/wazevo/call_engine.go", Old: "\t\t\tmod := c.callerModuleInstance()\n\t\t\tmem := mod.MemoryInstance\n", New: "\t\t\tmem := c.parent.module.MemoryInstance\n", Rule: "R14.7", Substr: "calling instance"},
 			{Name: "accessor-32bit-slice-end", File: "internal/wasm/memory.go", Old: "m.Buffer[offset : uint64(offset)+4]", New: "m.Buffer[offset : offset+4]", Rule: "R14.1", Substr: "readUint32Le"},
 			{Name: "accessor-wrong-width", File: "internal/wasm/memory.go", Old: "\tif !m.hasSize(offset, 8) {\n\t\treturn 0, false\n\t}\n\treturn binary.LittleEndian.Uint64(", New: "\tif !m.hasSize(offset, 4) {\n\t\treturn 0, false\n\t}\n\treturn binary.LittleEndian.Uint64(", Rule: "R14.4", Substr: "readUint64Le"},
 			{Name: "accessor-unguarded", File: "internal/wasm/memory.go", Old: "\tif !m.hasSize(offset, 1) {\n\t\treturn false\n\t}\n\tm.Buffer[offset] = v", New: "\tif int(offset) >= cap(m.Buffer) {\n\t\treturn false\n\t}\n\tm.Buffer[offset] = v", Rule: "R14.4", Substr: "WriteByte"},
@@ -65,6 +69,8 @@ func typeBits(t types.Type) int {
 }
 
 func runC14(c *core.Ctx) {
+	checkSuccessAfterSizeCheck(c)
+	checkBuiltinsActOnCaller(c, "R14.7")
 	wp := c.Pkg("internal/wasm")
 	info := wp.TypesInfo
 	memNamed, _ := wp.Types.Scope().Lookup("MemoryInstance").Type().(*types.Named)
@@ -953,5 +959,82 @@ func checkReload(c *core.Ctx) {
 		c.Check(top, "R14.5", "reload after memory.grow", ref.Clause.Pos(), "the memory.grow arm re-reads base and length unconditionally", "memory.grow is lowered without re-reading the memory base and length afterwards")
 	} else {
 		c.Undecided("R14.5", "memory.grow arm", 0, "lowering arm not found")
+	}
+}
+
+// ---- R14.6 an accessor reports success only after the size check ----
+
+func checkSuccessAfterSizeCheck(c *core.Ctx) {
+	wp := c.Pkg("internal/wasm")
+	info := wp.TypesInfo
+	// the size-check method: the MemoryInstance method called as `!m.X(off, n)` in the guards of most accessors
+	count := map[*types.Func]int{}
+	core.AllFuncDecls(wp, func(fd *ast.FuncDecl) {
+		if core.RecvName(fd) != "MemoryInstance" {
+			return
+		}
+		for _, s := range fd.Body.List {
+			if is, ok := s.(*ast.IfStmt); ok {
+				if ue, ok := ast.Unparen(is.Cond).(*ast.UnaryExpr); ok && ue.Op == token.NOT {
+					if call, ok := ast.Unparen(ue.X).(*ast.CallExpr); ok && len(call.Args) == 2 {
+						if f := core.Callee(info, call); f != nil && core.RecvNameOf(f) == "MemoryInstance" {
+							count[f]++
+						}
+					}
+				}
+			}
+		}
+	})
+	var sizeCheck *types.Func
+	for f, n := range count {
+		if n >= 5 && (sizeCheck == nil || n > count[sizeCheck]) {
+			sizeCheck = f
+		}
+	}
+	if sizeCheck == nil {
+		c.Undecided("R14.6", "size-check method", 0, "no MemoryInstance method used as the guard of at least five accessors")
+		return
+	}
+	n := 0
+	core.AllFuncDecls(wp, func(fd *ast.FuncDecl) {
+		if core.RecvName(fd) != "MemoryInstance" || info.Defs[fd.Name] == types.Object(sizeCheck) {
+			return
+		}
+		g := -1
+		for i, s := range fd.Body.List {
+			if is, ok := s.(*ast.IfStmt); ok {
+				if ue, ok := ast.Unparen(is.Cond).(*ast.UnaryExpr); ok && ue.Op == token.NOT {
+					if call, ok := ast.Unparen(ue.X).(*ast.CallExpr); ok && core.Callee(info, call) == sizeCheck {
+						g = i
+						break
+					}
+				}
+			}
+		}
+		if g < 0 {
+			return
+		}
+		n++
+		var bad []string
+		for _, s := range fd.Body.List[:g] {
+			ast.Inspect(s, func(x ast.Node) bool {
+				if _, isLit := x.(*ast.FuncLit); isLit {
+					return false
+				}
+				if r, ok := x.(*ast.ReturnStmt); ok {
+					for _, e := range r.Results {
+						if id, ok := ast.Unparen(e).(*ast.Ident); ok && id.Name == "true" {
+							bad = append(bad, "return "+core.ExprStr(e)+" at "+c.Pos(r.Pos()))
+						}
+					}
+				}
+				return true
+			})
+		}
+		c.Check(len(bad) == 0, "R14.6", "accessor "+fd.Name.Name+" reports success only after the size check", fd.Pos(), "no `return true` before the guard",
+			strings.Join(bad, "; ")+" precedes the size check: the accessor reports success for an offset beyond the memory size (e.g. a zero-length write at an out-of-range offset), unlike its siblings and the documented contract")
+	})
+	if n < 8 {
+		c.Undecided("R14.6", "guarded accessors", 0, fmt.Sprintf("only %d accessors with a size-check guard found", n))
 	}
 }
